@@ -83,8 +83,8 @@ def _replay_job(args):
             diffs.append('residual_rel')
         return diffs, out
     except Exception as e:  # noqa
-        import traceback
-        return [f'harness exception {type(e).__name__}: {e} {traceback.format_exc()[-300:]}'], None
+        from lib.errors import describe
+        return ['harness exception ' + describe(e, 300)], None
 
 
 def _l(x):
@@ -199,8 +199,8 @@ def _tv_run_job(args):
             mode = 'sweep'
         return dict(id=cid, mode=mode, inst=inst, out=out)
     except Exception as e:  # noqa
-        import traceback
-        return dict(id=cid, error=f'{type(e).__name__}: {e} {traceback.format_exc()[-300:]}')
+        from lib.errors import describe
+        return dict(id=cid, error=describe(e, 300), inst=inst)
 
 
 def _tv_validate_job(args):
